@@ -130,6 +130,7 @@ package chain
 //@   requires c != nil
 //@   ensures[stops-exactly-at-target] result == nil ==> frontierOfPool(c).idHeight == identifier.Height
 //@   at-call broadcastDeleteMomentum assert[announces-the-popped-momentum] detailed != nil && detailed.Momentum == frontier
+//@   at-call broadcastDeleteMomentum assert[store-popped-before-announcing] frontierOfPool(c).idHeight == frontier.Height - 1
 
 // the unconfirmed pool is dropped on every momentum delete: no branch-dependent manager survives a rollback
 //@ func accountPool.DeleteMomentum(ap, detailed)
